@@ -403,6 +403,92 @@ is accepted; with batch size 1 it is rejected -/
 example : validateBlocks [⟨1, 0, false⟩, ⟨2, 1, true⟩, ⟨3, 2, true⟩] 2 = true ∧
     validateBlocks [⟨1, 0, false⟩, ⟨2, 1, true⟩, ⟨3, 2, true⟩] 1 = false := by decide
 
+/-- **Sampled agreement with existing data**: a successful import (any healthy
+stores, any file) means the file carries the stores' own block and filter headers
+at the first and at the last overlapping height — a file contradicting existing
+data there is refused.  (Heights strictly inside the overlap are not compared:
+`validateChainContinuity` samples the two ends only; for block headers the
+validator's pair checks make the ends imply the middle, for filter headers
+nothing does.) -/
+theorem C14_success_sample_partial (F : File) (cfg : Cfg) (st : Stores) (hh : Healthy st)
+    (hok : (importStores F cfg st).1 = none) : sampleOk (obsOf st) F = true := by
+  obtain ⟨hl1, hl2⟩ := healthy_len st hh
+  have hmk := healthy_eq_mk st hh
+  obtain ⟨B, Fl, rfl⟩ : ∃ B Fl, st = mk B Fl := ⟨_, _, hmk⟩
+  obtain ⟨hpre, hc, _⟩ := importRun_ok_facts F cfg _ hok
+  obtain ⟨_, hne, _, _⟩ := preChecks_none F hpre
+  have hlen : F.blocks.length ≥ 1 := by
+    cases hb : F.blocks with
+    | nil => exact absurd hb hne
+    | cons x xs => simp
+  exact sample_of_continuity F B Fl hl1 hl2 hlen hc
+
+/-- **The whole success clause of the run-time oracle**, outside the recorded shape. -/
+theorem C14_success_all_partial (F : File) (cfg : Cfg) (st : Stores) (hh : Healthy st) (heq : EqualHeights st)
+    (hbs : cfg.bs ≥ 1) (hshape : f7Shape (obsOf st) F = false)
+    (hok : (importStores F cfg st).1 = none) :
+    successOk (obsOf st) F (obsOf (importStores F cfg st).2) = true := by
+  simp only [successOk, C14_success_partial F cfg st hh heq hbs hshape hok,
+    C14_success_chain_valid_partial F cfg st hh heq hbs hshape hok,
+    C14_success_sample_partial F cfg st hh hok, Bool.and_self]
+
+/-- **The whole failure clause of the run-time oracle**, outside the recorded
+shape, level stores: on every error the stores are usable, level, hold their old
+contents plus the same number of file headers each, height for height, and what
+was appended is connected to the old chain and pair-validated. -/
+theorem C14_failure_all_partial (F : File) (cfg : Cfg) (st : Stores) (e : Err) (hh : Healthy st) (heq : EqualHeights st)
+    (hbs : cfg.bs ≥ 1) (hshape : f7Shape (obsOf st) F = false)
+    (herr : (importStores F cfg st).1 = some e) :
+    failureOk (obsOf st) F (obsOf (importStores F cfg st).2) = true := by
+  obtain ⟨hfc, hlevel⟩ := C14_failure_partial F cfg st e hh heq hbs hshape herr
+  have hchain : chainOk (obsOf st) (obsOf (importStores F cfg st).2) = true := by
+    obtain ⟨hl1, hl2⟩ := healthy_len st hh
+    have hmk := healthy_eq_mk st hh
+    unfold EqualHeights at heq
+    obtain ⟨B, Fl, rfl⟩ : ∃ B Fl, st = mk B Fl := ⟨_, _, hmk⟩
+    have heq : B.length = Fl.length := heq
+    have hl1 : B.length ≥ 1 := hl1
+    have e3 : ∀ B Fl, (obsOf (mk B Fl)).blocks = B := fun _ _ => rfl
+    have e4 : ∀ B Fl, (obsOf (mk B Fl)).filters = Fl := fun _ _ => rfl
+    have hunch : ∀ st', st' = mk B Fl → chainOk (obsOf (mk B Fl)) (obsOf st') = true := by
+      intro st' h; subst h
+      simp only [chainOk, e3, List.drop_length, List.all_nil, Bool.and_true, Bool.or_eq_true, Bool.not_eq_true']
+      cases connected B <;> simp
+    unfold importStores at herr ⊢
+    simp only at herr ⊢
+    by_cases hchk : preChecks F = none ∧ continuity F (mk B Fl) = none ∧ validateBlocks F.blocks cfg.bs = true
+    · obtain ⟨_, hc, hv⟩ := hchk
+      by_cases hs : F.bstart = 0
+      · have hp := importRun_zero F cfg B Fl B.length hs hbs rfl heq.symm hl1
+        obtain ⟨j, _, hst⟩ := hp.2 e herr
+        obtain ⟨hval, hconn⟩ := chain_level_zero_take F cfg.bs B Fl j hs hl1 heq hc hv
+        rw [hst]
+        simp only [chainOk, e3, List.drop_left', hval, Bool.and_true, Bool.or_eq_true, Bool.not_eq_true']
+        cases hcb : connected B with
+        | false => exact Or.inl rfl
+        | true => exact Or.inr (hconn hcb)
+      · have he : endHeight F ≤ B.length - 1 := by
+          simp only [f7Shape, Bool.and_eq_false_iff, decide_eq_false_iff_not, e3, e4] at hshape
+          rcases hshape with h | h
+          · omega
+          · rw [← heq, Nat.min_self] at h; omega
+        exact hunch _ (importRun_covered F cfg B Fl B.length rfl heq.symm hl1 he).1
+    · have h' : preChecks F ≠ none ∨ continuity F (mk B Fl) ≠ none ∨ validateBlocks F.blocks cfg.bs = false := by
+        by_cases h1 : preChecks F = none
+        · by_cases h2 : continuity F (mk B Fl) = none
+          · right; right
+            cases hv : validateBlocks F.blocks cfg.bs with
+            | false => rfl
+            | true => exact absurd ⟨h1, h2, hv⟩ hchk
+          · exact Or.inr (Or.inl h2)
+        · exact Or.inl h1
+      exact hunch _ (importRun_early F cfg (mk B Fl) h').1
+  have hlv : ((obsOf st).blocks.length != (obsOf st).filters.length ||
+      (obsOf (importStores F cfg st).2).blocks.length == (obsOf (importStores F cfg st).2).filters.length) = true := by
+    have : (obsOf (importStores F cfg st).2).blocks.length = (obsOf (importStores F cfg st).2).filters.length := hlevel
+    rw [this]; simp
+  simp only [failureOk, hfc, hchain, hlv, Bool.and_self]
+
 /-! ### Block store ahead of the filter store
 
 The only unequal-height pre-state reachable with real `headerfs` stores (the
@@ -567,6 +653,13 @@ example : failureOk (obsOf exStores) exFile (obsOf (importStores exFile { bs := 
 -- block store ahead of the filter store, honest file: rejected, stores untouched
 example : importStores exFile { bs := 2 } { exStores with filters := [1], ftip := some 0 } =
     (some .conn, { exStores with filters := [1], ftip := some 0 }) := by decide
+-- block store ahead, distinct ids: the hypotheses of the block-ahead theorems are met, and the honest file is refused
+example : Healthy { exStores with filters := [1], ftip := some 0 } ∧
+    (({ exStores with filters := [1], ftip := some 0 } : Stores).blocks.map (·.id)).Nodup ∧
+    f7Shape (obsOf { exStores with filters := [1], ftip := some 0 }) exFile = false := by decide
+-- the second identical import reports success and changes nothing
+example : importStores exFile { bs := 2 } (importStores exFile { bs := 2 } exStores).2 =
+    (none, (importStores exFile { bs := 2 } exStores).2) := by decide
 -- the recorded shape really is what C14_success_counterexample uses
 example : f7Shape (obsOf cexStores) cexFile = true ∧ f7Shape (obsOf cexStores2) cexFile2 = true := by decide
 
